@@ -80,6 +80,7 @@ PROPS = {
     ),
     "C13": dict(
         run="^TestC13$",
+        extra_runs=[dict(run="^TestC13TZ$", env={"TZ": "Asia/Kolkata", "VERIF_TZ_SLICE": "1"})],
         level="exploration",
         rule="histories of real API calls drawn by a rapid state machine from the reference model's current state (virtual clock; profile C13), followed by a drain phase where stated; oracle: observation-driven reference model of Pub/Sub semantics (must / must-not / may sets per pull); publish / pull / partial ack / snapshot / seek to times (past, exact publish time, now, future) and to snapshots of the same or a same-filter sibling subscription, repeated seeks, then drain; non-trivial = a seek both acknowledges >=1 outstanding message and revives >=1 acknowledged message; distinct by hash of the operation list",
         assumptions=['virtual clock: time.Now/Since/Until in actions/ and services/ are redirected by the build overlay', 'SQLite backend only', "every time comparison carries a 10 ms margin; anything inside a margin or inside the <1 s jitter window is 'may'"],
